@@ -3,7 +3,7 @@ Correspondence (metamorphic, real pipeline): programs from all generators; varia
 its part), duplication of statements, the same sub-formula written in several theory atoms, distribution over 2-3 input files."""
 import json
 import gen, lang, meta, findings
-from props import c04
+from props import c04, c03
 
 PROP_FILE = 'Props/C12.v'
 GROUPS = ['imain']
@@ -13,14 +13,17 @@ ASSUMPTIONS = ['gringo/clasp contract G1-G6 (DESIGN.md 5.3)']
 
 def base(ctx, n):
     rng = ctx.rng('base')
-    out = []
-    for i in range(n):
+    out = [p for _, p in c03.constraint_programs(ctx, n // 4)]      # shared / related formulas, late-grounded theory atoms
+    for i in range(n - len(out)):
         atoms = ['a', 'b'] + (['c'] if rng.random() < 0.4 else [])
         k = rng.random()
         if k < 0.3:
             p = gen.core_program(rng, atoms, (2, 5))
         elif k < 0.5:
             p = gen.core_program(rng, atoms, (2, 5), future_head=0.35, lookahead=0.6)
+            # classically negated atoms before / after future heads (sign handling must not depend on statement order)
+            for _ in range(rng.randint(0, 2)):
+                p.insert(rng.randrange(len(p) + 1), {'part': rng.choice(gen.PARTS), 'head': ('norm', '-' + rng.choice(atoms), rng.choice([0, 0, 1])), 'body': [(rng.choice('pn'), ('patom', rng.choice(atoms), 0))]})
         elif k < 0.75:
             p = gen.context_program(rng, atoms)
             pool = []
